@@ -65,10 +65,10 @@ pub fn gen_large_block_case(seed: u64) -> Case {
     let mut rng = Rng::new(seed, 404, 0);
     let unit: Vec<u8> = genomes::random_seq(&mut rng, 171);
     let mut sat: Vec<u8> = Vec::with_capacity(1_150_000);
+    // exact copies: no k-mer of the array is a singleton, so no splitter falls inside it and the
+    // whole array stays ONE segment (> 1 MiB)
     while sat.len() < 1_150_000 {
-        for &b in &unit {
-            sat.push(if rng.chance(1, 400) { b"ACGT"[rng.below(4) as usize] } else { b });
-        }
+        sat.extend_from_slice(&unit);
     }
     let mut s1 = vec![("A#1#sat".to_string(), sat)];
     let mut s2 = vec![];
